@@ -9,6 +9,7 @@ import (
 	"sort"
 	"strings"
 	"sync"
+	"sync/atomic"
 	"testing/synctest"
 	"time"
 	_ "unsafe"
@@ -135,6 +136,7 @@ type Sim struct {
 	mapSeed    uint64
 	NoFaults   bool
 	Trouble    string
+	closed     atomic.Bool
 }
 
 // New creates a simulator for one run. Must be called inside a synctest bubble.
@@ -250,6 +252,11 @@ func (s *Sim) Exit() { runtime.Goexit() }
 
 // Yield parks the calling goroutine at a seam until the scheduler replies.
 func (s *Sim) Yield(p *Proc, seam, key string, menu []Outcome, enabled func() bool) (Outcome, uint32) {
+	if s.closed.Load() {
+		// the run is over: goroutines that wake up late (a timer, a backoff
+		// sleep) end at their next seam call
+		runtime.Goexit()
+	}
 	t := s.curTask(p)
 	if p != nil && (p.Dead || t.Gen != p.Gen) {
 		runtime.Goexit()
@@ -525,6 +532,7 @@ func (s *Sim) Advance(d time.Duration) {
 
 // Shutdown kills every task so the bubble can end.
 func (s *Sim) Shutdown(procs ...*Proc) {
+	defer s.closed.Store(true)
 	for i := 0; i < 1000; i++ {
 		s.Wait()
 		for _, p := range procs {
